@@ -1234,7 +1234,10 @@ class Context:
         finally:
             self._current_vm = None
 
-        return self._to_python(result)
+        try:
+            return self._to_python(result)
+        except RecursionError:
+            raise MemoryLimitError("Result is nested too deeply to convert")
 
     def _run_nested(self, compiled) -> JSValue:
         """Run eval()/Function() code from inside a running script.
